@@ -224,7 +224,14 @@ def step(r, cls, F, real, twin, op, g, hist, interesting, before):
         elif op == "load_state":
             sd = {k: (v + 0.3 * torch.randn(v.shape, generator=g).to(v.dtype) if v.is_floating_point() else v)
                   for k, v in real.state_dict().items()}
-            real.load_state_dict(sd)
+            if int(torch.randint(2, (1,), generator=g)):
+                real.load_state_dict(sd)
+            else:
+                # the usual way a checkpoint reaches a layer: through its container (children are restored by
+                # _load_from_state_dict, the public load_state_dict of the child is never called)
+                from nflows.transforms.base import CompositeTransform
+                parent = CompositeTransform([real])
+                parent.load_state_dict({"_transforms.0." + k: v for k, v in sd.items()})
         elif op == "to_double":
             real.double()
         elif op == "to_float":
